@@ -138,14 +138,14 @@ func suiteFaultOther(tier string, seed uint64) *Report {
 	}
 	alpha := map[string][]string{
 		"sen":       {"{", "}", "[", "]", "(", ")", ":", ",", "\"", "'", "+", "-", "1", "a", " ", "\n", "\\", "/", "#", "0x", "e", ".", "true", "null", "\x00", "\xef\xbb\xbf", "*", "`", "|", "\"a\"", "/*x*/", "//c\n"},
-		"jp":        {"$", "@", ".", "..", "[", "]", "(", ")", "?", "*", "'", "\"", "\\", ",", ":", "-", "1", "a", " ", "=", "<", ">", "!", "&", "|", "~", "/", "+", "x", "in", "has", "exists", "empty", "length", "count", "match", "search", "true", "null", "0.5", "\x00"},
-		"plan":      {"[", "]", "{", "}", "\"\"", "\"$.a\"", "\"@.b\"", "set", "get", "cond", "each", "sort", "at", "\"+\"", "lt", "1", "null", "true", " ", ":", "a", "\"$\"", "\"@\"", "join", "substr", "replace", "nth", "-1", "1.5", "quotient", "mod", "0", "0.0", "/", "include", "[1]", "9223372036854775807"},
+		"jp":        {"$", "@", ".", "..", "[", "]", "(", ")", "?", "*", "'", "\"", "\\", ",", ":", "-", "1", "a", " ", "=", "<", ">", "!", "&", "|", "~", "/", "+", "x", "in", "has", "exists", "empty", "length", "count", "match", "search", "true", "null", "0.5", "\x00", "\\ud834", "\\udd22", "\\u00e9", "\\u"},
+		"plan":      {"[", "]", "{", "}", "\"\"", "\"$.a\"", "\"@.b\"", "set", "get", "cond", "each", "sort", "at", "\"+\"", "lt", "1", "null", "true", " ", ":", "a", "\"$\"", "\"@\"", "join", "substr", "replace", "nth", "-1", "1.5", "quotient", "mod", "0", "0.0", "/", "include", "[1]", "9223372036854775807", "h\u00e9llo", "6", "\"\u00e9\""},
 		"recompose": {"{", "}", "[", "]", "\"A\"", "\"B\"", "\"C\"", "\"D\"", "\"E\"", "\"F\"", "\"G\"", "\"H\"", ":", ",", "1", "\"x\"", "null", "true", "1.5", "-1", "\"^\"", "\"fuser\"", "99999999999999999999", "{}", "[]"},
 	}
 	valid := map[string][]string{
 		"sen":       {"{a:1 b:[true null 2.5e3] c:{d:\"x\"}}", "[1 2 3]", "{a:\"x\" + \"y\"}", "fun(1 2)", "{a:1 + \"x\"}", "[1 + \"x\"]", "+ \"x\"", "{a:b c:d}", "// c\n[1]", "[0x1f -0 +3]", "[\"a\" + /* x */ \"b\" 1 \"c\"]", "{x: \"a\" + // more\n \"b\" y: \"c\"}", "[\"a\" + /* x */ 1 \"b\"]", "{x: \"a\" + // c\n y: \"b\"}"},
-		"jp":        {"$.a.b[1]", "$..a[*]['x','y'][1:3:2]", "$[?(@.a > 1 && @.b in [1,2])]", "@.x[?(@.y =~ /a.b/)].z", "$[?(length(@.a) == 2)]", "(@.a + 1 >= 2 || !(@.b exists true))", "$['a\\'b'][-1]", "$[?(@.a has true)][0,'k']"},
-		"plan":      {"[[set $.asm.a [\"+\" 1 2]] [set $.asm.b [cond [[lt 1 2] x] [true y]]]]", "[asm [set $.asm [each $.src [set @.asm [string @.src]]]]]", "[[set \"$.asm.x\" [join [list a b] \"\"]]]", "[[sort $.src @] [nth $.src -1] [substr abc 1 2]]", "[[include [[1] a] [1]] [substr abcdef 1 9223372036854775807] [include [{a:1}] {a:1}]]"},
+		"jp":        {"$.a.b[1]", "$..a[*]['x','y'][1:3:2]", "$[?(@.a > 1 && @.b in [1,2])]", "@.x[?(@.y =~ /a.b/)].z", "$[?(length(@.a) == 2)]", "(@.a + 1 >= 2 || !(@.b exists true))", "$['a\\'b'][-1]", "$[?(@.a has true)][0,'k']", "$['\\ud834\\udd22x']['\\u00e9\\\\']"},
+		"plan":      {"[[set $.asm.a [\"+\" 1 2]] [set $.asm.b [cond [[lt 1 2] x] [true y]]]]", "[asm [set $.asm [each $.src [set @.asm [string @.src]]]]]", "[[set \"$.asm.x\" [join [list a b] \"\"]]]", "[[sort $.src @] [nth $.src -1] [substr abc 1 2]]", "[[include [[1] a] [1]] [substr abcdef 1 9223372036854775807] [include [{a:1}] {a:1}]]", "[[substr h\u00e9llo 6] [substr \"\u00e9\u00e9\" 3 9] [substr h\u00e9llo -9 2]]"},
 		"recompose": {"{\"A\":1,\"B\":\"x\",\"C\":[1,2],\"D\":{\"k\":1.5},\"E\":{\"A\":2},\"F\":[1],\"G\":[true,false],\"H\":[{\"A\":3},null]}", "[{\"A\":1}]", "{\"a\":\"1\",\"c\":{\"x\":1},\"g\":[1,2,3]}"},
 	}
 	maxLen := map[string]int{"sen": 4, "jp": 4, "plan": 4, "recompose": 5}
